@@ -262,7 +262,7 @@ class Campaign:
                     vs = [allowed[v] for v in range(nvar) if v % k == (j + self.seed) % k]
                 else:
                     vs = [allowed[(j + self.seed) % nvar]]
-                jobs.append({"harness": name, "binary": binary, "j": j, "hi": hi, "cpu": cpu % NCPU, "cases": per, "variants": vs, "restart": 0, "done": 0})
+                jobs.append({"harness": name, "binary": binary, "j": j, "hi": hi, "cpu": cpu % NCPU, "cases": per, "variants": vs, "restart": 0, "done": 0, "bounds": h.get("bounds")})
                 cpu += 1
         env = dict(os.environ)
         env.update(ENV_BASE)
@@ -276,7 +276,7 @@ class Campaign:
             job["prefix"] = prefix
             s = sub_seed(self.seed, self.pid, job["harness"], job["hi"], job["j"], job["restart"])
             cmd = ["taskset", "-c", str(job["cpu"]), job["binary"], "--cases", str(job["cases"] - job["done"]), "--seed", str(s),
-                   "--tier", self.tier, "--out", prefix, "--variants", ",".join(str(v) for v in job["variants"])]
+                   "--tier", job.get("bounds") or self.tier, "--out", prefix, "--variants", ",".join(str(v) for v in job["variants"])]
             if job.get("extra") is not None:
                 cmd += ["--extra"] + job["extra"]
             job["log"] = open(prefix + ".log", "w")
